@@ -21,24 +21,22 @@ unit cells of the thin hole in its two wide directions).
 NEGATIVE SIDE, proved for EVERY deficient size (`deficient_not_valid`; the three families
 `thin_hole_family_x / _y / _z`; instance `thin_hole_rank_deficient`): an undeclared second logical pair,
 hence rank `≤ n − 2`, not a valid `[[n, 1]]` code.
-POSITIVE SIDE: `rankFamily` (all cubes; the triangles selected by `selTri`: the family of
-`RhombicPlanarCode` restricted to the listed triangles, plus the triangles of axis 1 at the vertices
-next to the hole, the lower triangles of axis 0 under the hole edges `(3, ·, 3)`, `(·, 3, 3)` and those
-along the hole edge `(3, 3, ·)`) is independent for EVERY size (`generators_independent`: triangular
-family of probes, single qubits and one family of three-qubit probes) and has `n − 1` members for
-every size of the family that is neither deficient nor in the gap `Lz = 4 ∧ Lx ≥ 4 ∧ Ly ≥ 5`
-(`generators_count_partial`: partition of the selected triangles into boxes of arithmetic
-progressions, checkerboard counts): `valid_code_partial` — all four clauses of C01, rank included.
-Together: outside the gap a size of the family is a valid code iff it is not deficient
-(`valid_iff_not_deficient_partial`).  NOT proved: the rank clause for the non-deficient sizes of the
-gap, `(4, Ly ≥ 5, 4)` and `(Lx ≥ 5, 5, 4)` (measured: rank `n − 1`; instances with `L_i ≤ 4` in
-`Properties/C01.lean`).
+POSITIVE SIDE, proved for EVERY size of the family that is not deficient (`valid_code`): `rankFamily`
+(all cubes; the triangles selected by `selTri`: the family of `RhombicPlanarCode` restricted to the
+listed triangles, plus the triangles of axis 1 at the vertices next to the hole and the lower
+triangles of axis 0 under the hole edges `(3, ·, 3)`, `(·, 3, 3)` and along the hole edge `(3, 3, ·)`) is
+independent for EVERY size (`generators_independent`: triangular family of probes, single qubits and
+four families of two- and three-qubit probes) and has `n − 1` members for every non-deficient size
+(`generators_count`: partition of the selected triangles into boxes of arithmetic progressions,
+checkerboard counts) — all four clauses of C01, rank included.
+Together (`valid_iff_not_deficient`, `rank_iff_not_deficient`): a size of the supported family is a
+valid `[[n, 1]]` code, and its generators have rank `n − 1`, IFF it is not deficient.
 -/
 import PanqecVerif.Proofs.LatHollowRhombicCodeThinA
 import PanqecVerif.Proofs.LatHollowRhombicCodeThinB
 import PanqecVerif.Proofs.LatHollowRhombicCodeThinC
 import PanqecVerif.Proofs.LatHollowRhombicCodeRankF
-import PanqecVerif.Proofs.LatHollowRhombicCodeRankO
+import PanqecVerif.Proofs.LatHollowRhombicCodeRankP
 import PanqecVerif.Proofs.Lat2DRankSubset
 
 namespace Panqec.C01HollowRhombicCode
@@ -248,7 +246,7 @@ theorem thin_hole_family_z (Lx Ly : Nat) (hx : 5 ≤ Lx) (hy : 6 ≤ Ly) :
 /-- THE EXACT SET OF RANK-DEFICIENT SIZES (measured on the implementation: GF(2) rank of
     `stabilizer_matrix` against `n − k` for every size of the family with `Lx ≤ 7`, `Ly, Lz ≤ 9`,
     `n ≤ 900` — 332 sizes, 40 of them deficient, exactly the ones below; the positive theorem
-    `valid_code_partial` and this negative theorem are the proved part).  The hole of the class has
+    `valid_code`, `deficient_not_valid` and `valid_iff_not_deficient` are the proof: `Deficient` is exact).  The hole of the class has
     `(Lx − 3) × (Ly − 4) × (Lz − 4)` vertices and is one layer of edges thin in `x` for `Lx = 3`, in `y` for
     `Ly = 4`, in `z` for `Lz = 4`; a size is deficient iff the hole is thin in one direction and at least
     two unit cells wide in the other two: with `a, b` the numbers of unit cells of the thin hole in the
@@ -282,10 +280,12 @@ theorem deficient_not_valid (Lx Ly Lz : Nat) (h : Deficient Lx Ly Lz) :
     hole); of axis 0 those of the last column `x = 2Lx−2`, the upper one (`(x+y+z) % 4 = 2`, `z ≥ 2`) of
     the two that share a z edge, the lower one where the upper one is not listed, and the lower ones
     `(0, 2, 2, z)`, `z % 4 = 0`, `8 ≤ z ≤ 2Lz−6`, along the hole edge `x = y = 3` when `Lx, Ly ≥ 4` or `Lx = 3`,
-    `Ly ≥ 5` — are independent: every non-empty duplicate-free sub-family has a Pauli operator on the
-    qubits anticommuting with an odd number of its members (a triangular family of probes: single
-    qubits, and `X(3,2,z) X(4,2,z−1) X(3,2,z−2)` / `X(2,3,z) X(2,4,z−1) X(2,3,z−2)` for the triangles
-    along the hole edge) -/
+    `Ly ≥ 5`, and for `Lz = 4` the lower ones `(0, 2, y, 2)` under the hole edge `(3, ·, 3)` (`Lx = 4`, `Ly ≥ 5`) or
+    `(0, x, 2, 2)` under the hole edge `(·, 3, 3)` (`Ly = 5`, `Lx ≥ 5`) — are independent: every non-empty
+    duplicate-free sub-family has a Pauli operator on the qubits anticommuting with an odd number of
+    its members (a triangular family of probes: single qubits, and `X(3,2,z) X(4,2,z−1) X(3,2,z−2)` /
+    `X(2,3,z) X(2,4,z−1) X(2,3,z−2)` / `X(3,y,2) X(4,y−1,2) X(3,y−2,2)` / `X(x,3,2) X(x−1,4,2)` for the kept
+    lower triangles) -/
 theorem generators_independent (Lx Ly Lz : Nat) (hy : 1 ≤ Ly) :
     Lat2D.IndepGenerators (lattice Lx Ly Lz) (rankFamily Lx Ly Lz) :=
   indep_rankFamily Lx Ly Lz hy
@@ -295,38 +295,28 @@ theorem generators_listed (Lx Ly Lz : Nat) :
     (rankFamily Lx Ly Lz).Nodup ∧ ∀ s ∈ rankFamily Lx Ly Lz, s ∈ (lattice Lx Ly Lz).stabs :=
   ⟨nodup_rankFamily Lx Ly Lz, fun _ hs => rankFamily_sub hs⟩
 
-/-- the sizes of the family for which the family is NOT counted: a hole one layer thin in `z` and at
-    least two unit cells wide in `x` and `y` (`Lz = 4`, `Lx ≥ 4`, `Ly ≥ 5`; the sizes with `Lx ≥ 5`, `Ly ≥ 6`
-    among them are deficient, the others — `(4, Ly ≥ 5, 4)` and `(Lx ≥ 5, 5, 4)` — are not).  On these sizes
-    `rankFamily` is independent but has fewer than `n − 1` members (one fewer for every further pair of
-    triangles along the hole edges `(3, ·, 3)`, `(·, 3, 3)` that would have to be kept, as is done along
-    the edge `(3, 3, ·)`) -/
-def Gap (Lx Ly Lz : Nat) : Prop := Lz = 4 ∧ 4 ≤ Lx ∧ 5 ≤ Ly
-
-instance (Lx Ly Lz : Nat) : Decidable (Gap Lx Ly Lz) := by unfold Gap; infer_instance
-
-/-- the sizes for which the family is COUNTED: no hole or a hole one layer thin in two directions
+/-- the regimes in which the family is counted: no hole or a hole one layer thin in two directions
     (`NoHole`: `_is_in_hole` is never true on a vertex, a leg or a corner); a hole at least two layers
-    thick in every direction; the five families of sizes with `Lz ≥ 5` whose hole is thin in `x` or `y`
-    and that are not deficient -/
+    thick in every direction; the seven one-parameter families of sizes whose hole is thin in one
+    direction and that are not deficient -/
 def Covered (Lx Ly Lz : Nat) : Prop :=
   NoHole Lx Ly Lz ∨ (4 ≤ Lx ∧ 5 ≤ Ly ∧ 5 ≤ Lz) ∨ (Lx = 3 ∧ 4 ≤ Ly ∧ Lz = 5) ∨ (Lx = 3 ∧ Ly = 4 ∧ 5 ≤ Lz) ∨
-  (Lx = 3 ∧ Ly = 5 ∧ 5 ≤ Lz) ∨ (Lx = 4 ∧ Ly = 4 ∧ 5 ≤ Lz) ∨ (4 ≤ Lx ∧ Ly = 4 ∧ Lz = 5)
+  (Lx = 3 ∧ Ly = 5 ∧ 5 ≤ Lz) ∨ (Lx = 4 ∧ Ly = 4 ∧ 5 ≤ Lz) ∨ (4 ≤ Lx ∧ Ly = 4 ∧ Lz = 5) ∨
+  (Lx = 4 ∧ 5 ≤ Ly ∧ Lz = 4) ∨ (5 ≤ Lx ∧ Ly = 5 ∧ Lz = 4)
 
 instance (Lx Ly Lz : Nat) : Decidable (Covered Lx Ly Lz) := by unfold Covered; infer_instance
 
-/-- the counted sizes are exactly the sizes that are neither deficient nor in the gap -/
+/-- the regimes cover exactly the sizes of the family that are not deficient -/
 theorem covered_iff {Lx Ly Lz : Nat} (h : Family Lx Ly Lz) :
-    Covered Lx Ly Lz ↔ ¬ Deficient Lx Ly Lz ∧ ¬ Gap Lx Ly Lz := by
+    Covered Lx Ly Lz ↔ ¬ Deficient Lx Ly Lz := by
   unfold Family at h
   constructor
   · intro hc
     unfold Covered NoHole at hc
-    unfold Deficient Gap
-    rcases hc with (hc | hc | hc | hc | hc | hc) | hc | hc | hc | hc | hc | hc <;> omega
-  · rintro ⟨hd, hg⟩
+    unfold Deficient
+    rcases hc with (hc | hc | hc | hc | hc | hc) | hc | hc | hc | hc | hc | hc | hc | hc <;> omega
+  · intro hd
     unfold Deficient at hd
-    unfold Gap at hg
     unfold Covered NoHole
     by_cases a1 : Lx ≤ 2
     · exact Or.inl (Or.inl a1)
@@ -346,20 +336,23 @@ theorem covered_iff {Lx Ly Lz : Nat} (h : Family Lx Ly Lz) :
     · by_cases c2 : Lz = 4
       · exact Or.inl (Or.inr (Or.inr (Or.inr (Or.inr (Or.inr ⟨c1, c2⟩)))))
       by_cases c3 : Lz = 5
-      · exact Or.inr (Or.inr (Or.inr (Or.inr (Or.inr (Or.inr ⟨by omega, c1, c3⟩)))))
+      · exact Or.inr (Or.inr (Or.inr (Or.inr (Or.inr (Or.inr (Or.inl ⟨by omega, c1, c3⟩))))))
       · exact Or.inr (Or.inr (Or.inr (Or.inr (Or.inr (Or.inl ⟨by omega, c1, by omega⟩)))))
+    by_cases d1 : Lz = 4
+    · by_cases d2 : Lx = 4
+      · exact Or.inr (Or.inr (Or.inr (Or.inr (Or.inr (Or.inr (Or.inr (Or.inl ⟨d2, by omega, d1⟩)))))))
+      · exact Or.inr (Or.inr (Or.inr (Or.inr (Or.inr (Or.inr (Or.inr (Or.inr
+          ⟨by omega, by omega, d1⟩)))))))
     · exact Or.inr (Or.inl ⟨by omega, by omega, by omega⟩)
 
-/-- the family has exactly `n − k = n − 1` members (every size of the family that is neither deficient
-    nor in the gap) -/
-theorem generators_count_partial (Lx Ly Lz : Nat) (h : Family Lx Ly Lz) (hd : ¬ Deficient Lx Ly Lz)
-    (hg : ¬ Gap Lx Ly Lz) :
+/-- the family has exactly `n − k = n − 1` members: EVERY size of the family that is not deficient -/
+theorem generators_count (Lx Ly Lz : Nat) (h : Family Lx Ly Lz) (hd : ¬ Deficient Lx Ly Lz) :
     (rankFamily Lx Ly Lz).length + (lattice Lx Ly Lz).toCodeData.k = (lattice Lx Ly Lz).toCodeData.n := by
   show (rankFamily Lx Ly Lz).length + 1 = (qubits Lx Ly Lz).length
-  have hc := (covered_iff h).mpr ⟨hd, hg⟩
+  have hc := (covered_iff h).mpr hd
   obtain ⟨hx, hy, hz⟩ := h
   rcases hc with hc | ⟨h1, h2, h3⟩ | ⟨e1, h2, e3⟩ | ⟨e1, e2, h3⟩ | ⟨e1, e2, h3'⟩ | ⟨e1, e2, h3⟩ |
-    ⟨h1, e2, e3⟩
+    ⟨h1, e2, e3⟩ | ⟨e1, h2, e3⟩ | ⟨h1, e2, e3⟩
   · exact noHole_count hc hx hy (by omega)
   · exact thick_count h1 h2 h3
   · rw [e1, e3]; exact count_3_L_5 Ly h2
@@ -367,6 +360,8 @@ theorem generators_count_partial (Lx Ly Lz : Nat) (h : Family Lx Ly Lz) (hd : ¬
   · rw [e1, e2]; exact count_3_5_L Lz h3'
   · rw [e1, e2]; exact count_4_4_L Lz h3
   · rw [e2, e3]; exact count_L_4_5 Lx h1
+  · rw [e1, e3]; exact count_4_L_4 Ly h2
+  · rw [e2, e3]; exact count_L_5_4 Lx h1
 
 /-- the number of cubes (every size): the cubes of the checkerboard in the box `Lx × (Ly+1) × (Lz−1)`
     (rounded up) minus those with all eight corners in the hole (the box
@@ -378,14 +373,12 @@ theorem n_cubes (Lx Ly Lz : Nat) :
   unfold Rhombic.half at this
   simpa using this
 
-/-- THE C01 STATEMENT, POSITIVE SIDE (partial): for every size of the supported family that is not
-    deficient and not in the gap (`Gap`: `Lz = 4 ∧ Lx ≥ 4 ∧ Ly ≥ 5`) the matrices
+/-- THE C01 STATEMENT, POSITIVE SIDE, EVERY NON-DEFICIENT SIZE of the supported family: the matrices
     that `stabilizer_matrix`, `logicals_x`, `logicals_z` of the generic code model assemble from this
-    lattice model form a valid `[[n, 1]]` stabilizer code — commutation, pairing and GF(2) rank `n − 1`.
-    MISSING for `valid_code` on every non-deficient size: the two one-parameter families
-    `(4, Ly ≥ 5, 4)`, `(Lx ≥ 5, 5, 4)` of the gap (measured: rank `n − 1` there too) -/
-theorem valid_code_partial (Lx Ly Lz : Nat) (h : Family Lx Ly Lz) (hd : ¬ Deficient Lx Ly Lz)
-    (hg : ¬ Gap Lx Ly Lz) :
+    lattice model form a valid `[[n, 1]]` stabilizer code — generators pairwise commute, logicals
+    commute with the generators, `ω(X, Z) = 1`, `ω(X, X) = ω(Z, Z) = 0`, and the generators have GF(2)
+    rank `n − 1` (`n` as in `n_formula`) -/
+theorem valid_code (Lx Ly Lz : Nat) (h : Family Lx Ly Lz) (hd : ¬ Deficient Lx Ly Lz) :
     stabilizerMatrix (lattice Lx Ly Lz).toCodeData = some (lattice Lx Ly Lz).rowsH ∧
     logicalsX (lattice Lx Ly Lz).toCodeData = some (lattice Lx Ly Lz).rowsX ∧
     logicalsZ (lattice Lx Ly Lz).toCodeData = some (lattice Lx Ly Lz).rowsZ ∧
@@ -394,16 +387,30 @@ theorem valid_code_partial (Lx Ly Lz : Nat) (h : Family Lx Ly Lz) (hd : ¬ Defic
   Lat2D.validCode_of_lattice_subset (lattice Lx Ly Lz) (wf Lx Ly Lz h) (commPair Lx Ly Lz h)
     (rankFamily Lx Ly Lz) (nodup_rankFamily Lx Ly Lz) (fun _ hs => rankFamily_sub hs)
     (generators_independent Lx Ly Lz (by unfold Family at h; omega))
-    (generators_count_partial Lx Ly Lz h hd hg)
+    (generators_count Lx Ly Lz h hd)
 
-/-- the two sides together: a size of the family outside the gap is a valid `[[n, 1]]` code iff it is
-    not deficient -/
-theorem valid_iff_not_deficient_partial (Lx Ly Lz : Nat) (h : Family Lx Ly Lz) (hg : ¬ Gap Lx Ly Lz) :
+/-- THE EXACT CHARACTERISATION: a size of the supported family is a valid `[[n, 1]]` code iff it is not
+    deficient -/
+theorem valid_iff_not_deficient (Lx Ly Lz : Nat) (h : Family Lx Ly Lz) :
     ValidCodeL (lattice Lx Ly Lz).toCodeData.n 1
       (lattice Lx Ly Lz).rowsH (lattice Lx Ly Lz).rowsX (lattice Lx Ly Lz).rowsZ ↔
     ¬ Deficient Lx Ly Lz :=
   ⟨fun hv hd => (deficient_not_valid Lx Ly Lz hd).2.2 hv,
-    fun hd => (valid_code_partial Lx Ly Lz h hd hg).2.2.2⟩
+    fun hd => (valid_code Lx Ly Lz h hd).2.2.2⟩
+
+/-- the GF(2) rank of the generators is `n − 1` iff the size is not deficient -/
+theorem rank_iff_not_deficient (Lx Ly Lz : Nat) (h : Family Lx Ly Lz) :
+    HasRank (2 * (lattice Lx Ly Lz).toCodeData.n) (lattice Lx Ly Lz).rowsH
+      ((lattice Lx Ly Lz).toCodeData.n - 1) ↔ ¬ Deficient Lx Ly Lz := by
+  constructor
+  · intro hr hd
+    have := (deficient_not_valid Lx Ly Lz hd).2.1 _ hr
+    have hn : 2 ≤ (lattice Lx Ly Lz).toCodeData.n := by
+      have h2 := (deficient_not_valid Lx Ly Lz hd).2.1 _ hr
+      omega
+    omega
+  · intro hd
+    exact (valid_code Lx Ly Lz h hd).2.2.2.rank
 
 /-! ### non-vacuity -/
 
@@ -431,13 +438,13 @@ example : (lattice 2 2 3).getStab [1, -1, 1] = [([2, 0, 1], .X), ([1, 0, 2], .X)
   decide
 
 example : Covered 2 2 3 ∧ Covered 7 3 9 ∧ Covered 4 5 5 ∧ Covered 6 9 8 ∧ Covered 3 5 5 ∧ Covered 4 4 9 ∧
-    Covered 3 9 4 ∧ Covered 9 4 4 ∧ Covered 3 9 5 ∧ Covered 3 5 11 ∧ ¬ Covered 3 6 6 ∧ ¬ Covered 4 5 4 := by
+    Covered 3 9 4 ∧ Covered 9 4 4 ∧ Covered 3 9 5 ∧ Covered 3 5 11 ∧ Covered 4 9 4 ∧ Covered 9 5 4 ∧
+    ¬ Covered 3 6 6 ∧ ¬ Covered 5 6 4 := by
   decide
-example : Gap 4 5 4 ∧ Gap 7 5 4 ∧ ¬ Gap 3 5 7 ∧ ¬ Gap 3 9 4 := by decide
 /-- a size with a thick hole: 520 qubits, rank 519 -/
 example : HasRank (2 * (lattice 6 5 8).toCodeData.n) (lattice 6 5 8).rowsH
     ((lattice 6 5 8).toCodeData.n - 1) ∧ (lattice 6 5 8).toCodeData.n = 520 :=
-  ⟨(valid_code_partial 6 5 8 (by decide) (by decide) (by decide)).2.2.2.rank,
+  ⟨(valid_code 6 5 8 (by decide) (by decide)).2.2.2.rank,
     by have := n_formula 6 5 8; omega⟩
 example : Lat2D.IndepGenerators (lattice 3 6 6) (rankFamily 3 6 6) :=
   generators_independent 3 6 6 (by decide)
